@@ -107,6 +107,16 @@ _STAGED = {}
 def stage_program(name, lang, stage):
     """member at a pipeline stage; the staged program is built once per process and kept pickled
     (every path works on its own unpickled copy)"""
+    if name.startswith('template/'):
+        # built from the IR constructors and mutated directly: the "original" never went through pickle
+        from vlib import templates
+        p = templates.build(name)
+        with FixedRandom():
+            if stage >= 1:
+                p, _ = P.erase(p, lang)
+            if stage >= 2:
+                p, _ = P.overwrite(p, lang)
+        return p
     k = (name, lang, stage)
     if k not in _STAGED:
         try:
@@ -172,6 +182,14 @@ def h_roundtrip(eng, tier, lang, sym_draws, part):
     obs.append(Ob('structure-identical', snapshot(p) == snapshot(q) and not P.irdiff(p, q),
                   lambda: dict(case, diff=[str(d)[:200] for d in P.irdiff(p, q)[:3]])))
     obs.append(Ob('reverse-lookup-identical', reverse_map(p) == reverse_map(q), case))
+    # loading the same file again after the first loaded copy was changed in place gives the saved program
+    from vlib.props.C11 import _first_erasable
+    d_ = _first_erasable(q)
+    if d_ is not None:
+        d_.omit_type()
+        q_again = utils.load_program(path)
+        obs.append(Ob('second-load-of-the-same-file', not P.irdiff(p, q_again) and snapshot(p) == snapshot(q_again), case))
+        q = q_again
     # second round trip is stable
     path2 = os.path.join(tmpdir(), 'prog2.bin')
     utils.dump_program(path2, q)
